@@ -82,7 +82,11 @@ def schema(name):
 
 def plain_schema(name):
     if name not in _PLAIN:
-        _PLAIN[name] = S.build(S.SCHEMAS[name])
+        sch = S.build(S.SCHEMAS[name])
+        for (sname, tname, fname), pyname in W.PYTHON_NAMES.items():
+            if sname == name:
+                sch.types[tname].field_map[fname].python_name = pyname
+        _PLAIN[name] = sch
     return _PLAIN[name]
 
 
@@ -112,6 +116,8 @@ def cases(tier):
                 yield {"k": "base", "schema": name, "root": root, "n": n, "idx": idx}
     yield {"k": "multi-op"}
     yield {"k": "operation-name"}
+    yield {"k": "containers"}
+    yield {"k": "shared-error"}
     yield {"k": "abstract-args"}
     for j, (tc, parents) in enumerate(O.shared_fragment_parent_tuples(S.SCHEMAS["D"], tier)):
         yield {"k": "shared-frag", "tc": tc, "parents": [list(p) for p in parents]}
@@ -160,10 +166,10 @@ def _lib_run(mode, name, text, ast, opname, variables, world):
             r = graphql_blocking(schema(name), text, operation_name=opname, variables=variables, context=ctx)
             if "data" not in r.response() or (r.data is None and r.errors and all(getattr(e, "path", None) is None for e in r.errors)):
                 return ("request-error", [str(e) for e in r.errors])
-        elif mode == "default-resolver":
+        elif mode.startswith("default-resolver"):
             sm = S.SCHEMAS[name]
             kind = _op_kind(ast, opname)
-            root = W.data_tree(sm, sm[kind], DATA_DEPTH)
+            root = W.data_tree(sm, sm[kind], DATA_DEPTH, "", mode.split(":", 1)[1] if ":" in mode else None)
             r = execute(plain_schema(name), ast, operation_name=opname, variables=variables, initial_value=root, executor_cls=BlockingExecutor)
         else:
             raise ValueError(mode)
@@ -449,6 +455,68 @@ def run_document(name, case, st, bounds, opnames=(None,)):
     return out
 
 
+def _parsed(name, case):
+    from py_gql.lang import parse
+
+    text, locs = O.render_doc_locs(case["doc"])
+    return text, locs, parse(text)
+
+
+def container_docs():
+    F, SP = O.F, O.SP
+    yield {"doc": O.mkdoc(O.mkop([F("i"), F("n"), F("o", [F("i"), F("s"), F("n"), F("o", [F("s")])]), F("p", [F("s")]), F("lo", [F("s"), F("n")]), F("li"), F("ll")])), "vars": {}, "devs": ["containers"]}
+    yield {"doc": O.mkdoc(O.mkop([F("i", alias="x"), F("o", [SP("Fr")]), F("lo", [SP("Fr"), F("s", alias="yy")])]), [["Fr", "Obj", [], [F("s"), F("i")]]]), "vars": {}, "devs": ["containers"]}
+
+
+def run_containers(st):
+    """default_resolver over every container kind of parent values (root, nested objects, list items):
+    the data must equal the reference's, which does not depend on the kind"""
+    out = []
+    sm = S.SCHEMAS["A"]
+    for case in container_docs():
+        text, locs, ast = _parsed("A", case)
+        ref = R.execute(sm, case["doc"], locs, {}, None, {}, valuekey="field", data_depth=DATA_DEPTH)
+        for kind in W.CONTAINER_KINDS:
+            mode = "default-resolver:" + kind
+            st.n("evaluations")
+            st.nt(("containers", text, kind))
+            lib = _lib_run(mode, "A", text, ast, None, {}, {})
+            for cls, detail in compare(ref, lib, mode, "containers"):
+                out.append((cls + "/container=" + kind, _witness("A", case, None, {}, {}, mode), detail + " :: " + text))
+    return out
+
+
+SHARED_ERROR_WORLDS = [
+    {"i": "errS", "n": "errS"},
+    {"i": "errS", "x": "errS"},
+    {"i": "errS", "n": "err", "x": "errS"},
+    {"i": "errS", "n": "null", "x": "errS"},
+    {"i": "errS", "n": "errS", "x": "errS"},
+    {"i": "errS", "o/i": "errS", "y": "errS"},
+    {"i": "errS", "n": "err", "x": "errS", "o/s": "err", "y": "errS"},
+    {"o/i": "errS", "o/s": "null", "o/n": "errS"},
+]
+
+
+def run_shared_error(st):
+    """all faulted fields of one request raise the SAME ResolverError instance (2 and 3 fields, adjacent
+    and with a differently failing field in between); oracle as usual"""
+    out = []
+    sm = S.SCHEMAS["A"]
+    F = O.F
+    case = {"doc": O.mkdoc(O.mkop([F("i"), F("n"), F("i", alias="x"), F("o", [F("i"), F("s"), F("n")]), F("n", alias="y")])), "vars": {}, "devs": ["shared-error"]}
+    text, locs, ast = _parsed("A", case)
+    for world in SHARED_ERROR_WORLDS:
+        ref = R.execute(sm, case["doc"], locs, world, None, {})
+        for mode in ("execute-blocking", "execute-generic", "graphql_blocking"):
+            st.n("evaluations")
+            st.nt(("shared-error", mode, sorted(world.items())))
+            lib = _lib_run(mode, "A", text, ast, None, {}, world)
+            for cls, detail in compare(ref, lib, mode, "shared-error"):
+                out.append((cls + "/shared-instance", _witness("A", case, None, {}, world, mode), detail + " :: " + text))
+    return out
+
+
 def replay_document(w):
     from py_gql.lang import parse
 
@@ -459,7 +527,7 @@ def replay_document(w):
     ast = parse(text)
     feat = features(w)
     mode = w["mode"]
-    if mode == "default-resolver":
+    if mode.startswith("default-resolver"):
         ref = R.execute(sm, doc, locs, {}, w["opname"], w["variables"], valuekey="field", data_depth=DATA_DEPTH)
     else:
         ref = R.execute(sm, doc, locs, w["world"], w["opname"], w["variables"])
@@ -471,6 +539,10 @@ def replay_document(w):
         _lib_run(mode, name, text, ast, w["opname"], variables, {})
     lib = _lib_run(mode, name, text, ast, w["opname"], w["variables"], w["world"])
     got = compare(ref, lib, mode, feat)
+    if "containers" in w.get("devs", []) and ":" in mode:
+        got = [(cls + "/container=" + mode.split(":", 1)[1], d) for cls, d in got]
+    if "shared-error" in w.get("devs", []):
+        got = [(cls + "/shared-instance", d) for cls, d in got]
     if w["world"] and lib[0] == "ok":
         lib0 = _lib_run(mode, name, text, ast, w["opname"], w["variables"], {})
         if lib0[0] == "ok" and _prune(lib[3], w["world"].keys()) != _prune(lib0[3], w["world"].keys()):
@@ -628,6 +700,10 @@ def _check_case(case, st):
         for name, c, opnames in multi_op_cases():
             out.extend(run_document(name, c, st, bounds, opnames))
         return out
+    if k == "containers":
+        return run_containers(st)
+    if k == "shared-error":
+        return run_shared_error(st)
     if k == "operation-name":
         out = []
         for tag, c, names in O.operation_name_docs():
